@@ -1,10 +1,10 @@
 """C16 — file names and response files reach commands intact (DESIGN 5.16)."""
 from facts import AnalysisBroken
 from model import (dstr, strip, fact_holds, mentions_field, mentions_call, mentions_var,
-                   mentions_enum, const_value, walk)
+                   mentions_enum, const_value, walk, ret_value_class)
 from rules import (guarded, calls_to, field_writes, who_may_call, full_range, loops_over,
                    every_iteration_passes, basename, origins, is_var, is_enum, lastname,
-                   dominated_by, reached_only_via)
+                   dominated_by, reached_only_via, must_pass)
 import charset
 
 # Characters that /bin/sh treats as ordinary in any position of an unquoted word.
@@ -182,4 +182,35 @@ def run(ctx):
             continue
         for e in f.calls('Edge::GetUnescapedRspfile'):
             ctx.violation('C16.O1', f.name, 'rspfile:other-user', f.where(e), 'unexpected user of the response file path: %s' % f.name)
-    ctx.floor('C16.O1', 6)
+    # the file holds exactly `contents`: truncating open, one write of the whole string, checked close
+    wfn = prog.fn('RealDiskInterface::WriteFile')
+    opens = [e for e in wfn.events('call') if e.get('name') in ('fopen', 'open', 'fdopen', 'creat', 'freopen', 'openat')]
+    trunc = False
+    desc = []
+    for e in opens:
+        a = e.get('args') or []
+        if e['name'] in ('fopen', 'freopen') and len(a) >= 2:
+            modes = [strip(x).get('v') for x in walk(a[1]) if isinstance(x, dict) and x.get('k') == 'str']
+            desc.append('%s mode %s' % (e['name'], modes))
+            if modes and all(isinstance(m, str) and m.startswith('w') for m in modes):
+                trunc = True
+        elif e['name'] in ('open', 'openat'):
+            fl = a[1] if e['name'] == 'open' else (a[2] if len(a) > 2 else None)
+            v = const_value(fl) if fl is not None else None
+            desc.append('%s flags %s' % (e['name'], oct(v) if v is not None else dstr(fl)))
+            if v is not None and v & 0o1000:        # O_TRUNC
+                trunc = True
+        elif e['name'] == 'creat':
+            trunc = True
+    ctx.check('C16.O1', bool(opens) and trunc, wfn.name, 'WriteFile:no-truncation', wfn.loc,
+              'WriteFile opens its target truncating (fopen "w…" / O_TRUNC), so no stale tail of an older, '
+              'longer response file survives: %s' % desc)
+    fw = list(wfn.calls('fwrite'))
+    okw = len(fw) == 1 and mentions_var(fw[0]['args'][0], 'contents') and mentions_var(fw[0]['args'][2], 'contents') and \
+        const_value(fw[0]['args'][1]) == 1
+    ctx.check('C16.O1', okw, wfn.name, 'WriteFile:partial-write', wfn.loc, 'one fwrite of contents.data() with contents.length() bytes')
+    for callee in ('fwrite', 'fclose'):
+        must_pass(ctx, 'C16.O1', wfn, lambda x, c=callee: x['k'] == 'call' and x.get('name') == c,
+                  lambda x: x['k'] == 'ret' and ret_value_class(prog, wfn, x) == 'success',
+                  'WriteFile succeeds only after %s' % callee, 'WriteFile:success-without-%s' % callee)
+    ctx.floor('C16.O1', 10)
